@@ -41,7 +41,19 @@ RULE = ('exhaustive small scope: (A) every row count n<=5 (thorough 7) x every b
         'with n = k*chunk, k*chunk+-1; (F) the reference parser csv_parse against csv.reader on every byte string of '
         'length <=5 (thorough 6) over {a , " LF CR blank}; (G) to_pandas on small frames x all masks x column filters. '
         'Every csv case compares the bytes of the file, the rows csv.reader recovers and (flag reimp) the columns '
-        'ExeTera re-imports under the matching schema. HDF5-backed: ~5-15 ms per case.')
+        'ExeTera re-imports under the matching schema. HDF5-backed: ~5-15 ms per case. '
+        'Added by SC18: (H) NON-RECTANGULAR frames: 3 columns of every length in {0,2,3} (thorough 0..4) x 15 column '
+        'filters (str, every ordered subset) x None/array/short array/own field/memory-backed field row filters x chunk '
+        '1,2,default (thorough 1..4,default), the same frames through to_pandas, and never-selected columns of the other '
+        'field types (fixed string, categorical, timestamp) of other lengths; (E2) random ragged frames exported through a '
+        'column filter; (I) HISTORIES: every sequence of 2 calls over an alphabet of 11 calls (and of 3 over 8, thorough 11) '
+        'on one dataframe object and one destination path with the caller\'s column_filter list objects and filter '
+        'arrays reused, failing calls in between, edits of the dataframe (append / clear / create / delete) between '
+        'exports, random histories of 3-6 steps; (K) more rows than the default chunk_row_size 1<<15 (default-argument '
+        'path iterates), 255..1000 rows with chunk 255..257, cells of 255..70001 bytes with multi-byte text and quotes; '
+        '(J) change-directed: every new small integer literal K of the tree under test planted as row count, chunk size, '
+        'filter length, length of unselected columns, cell width, column count, history length (K-1, K, K+1, 2K, 2K+1); '
+        'random budget x3 when a library source differs from the recorded tree.')
 EXHAUSTIVE = {'quick': True, 'thorough': True}
 TRUSTED = ['CPython str(float) / str(bool) literals are supplied to the model by the harness (repr of the stored value); '
            'integer literals are rendered in Gallina (render_int)',
@@ -49,7 +61,8 @@ TRUSTED = ['CPython str(float) / str(bool) literals are supplied to the model by
            'and by every csv case',
            'the ExeTera importer (read_csv, String()/Numeric(strict)) is exercised as a black box for the re-import clause',
            'pandas.DataFrame construction from a dict of numpy arrays']
-ASSUMPTIONS = ['files are UTF-8 with LF line ends (after fix-F-C18h to_csv no longer depends on the locale; an ASCII-locale '
+ASSUMPTIONS = ['columns of field types other than indexed string / numeric occur only as columns that are not selected',
+               'files are UTF-8 with LF line ends (after fix-F-C18h to_csv no longer depends on the locale; an ASCII-locale '
                'interpreter is exercised; newline translation of Windows text mode is not exercised on this machine)',
                'column names are unique within a frame; to_pandas receives list/ndarray masks only']
 
@@ -890,6 +903,11 @@ def gen(tier, rng):
     from harness import hot
     big = tier == 'thorough'
     boost = 3 if hot.changed() else 1
+    # the large cases come first so that the evidence samples (first / middle / last records) stay small
+    for c in _gen_hot(rng):
+        yield c
+    for c in _gen_large(big):
+        yield c
     for c in _gen_main(tier, rng):
         yield c
     for c in _gen_ragged(big):
@@ -897,10 +915,6 @@ def gen(tier, rng):
     for c in _gen_random_ragged((3000 if big else 300) * boost, rng):
         yield c
     for c in _gen_hist(big, rng):
-        yield c
-    for c in _gen_large(big):
-        yield c
-    for c in _gen_hot(rng):
         yield c
 
 
@@ -1056,13 +1070,22 @@ def shrink(case):
         for i in range(len(s)):
             yield {'op': 'parse', 's': s[:i] + s[i + 1:]}
         return
+    if case['op'] == 'seq':
+        steps = case['steps']
+        for i in range(len(steps) - 1, -1, -1):
+            if 'edit' not in steps[i] or steps[i]['edit'][0] in ('append', 'clear'):
+                yield dict(case, steps=steps[:i] + steps[i + 1:])
+        for i, st in enumerate(steps):
+            if 'edit' not in st and st['chunk'] not in (None, 1) and st['chunk'] >= 1:
+                yield dict(case, steps=steps[:i] + [dict(st, chunk=None)] + steps[i + 1:])
+        return
     cols = case['cols']
     n = max([len(c[2]) for c in cols], default=0)
     for i in range(n):
         c2 = [[c[0], c[1], c[2][:i] + c[2][i + 1:]] for c in cols]
         d = dict(case, cols=c2)
-        if case['op'] == 'csv' and case['rf'] is not None and case['rf'][0] == 'arr':
-            d['rf'] = ['arr', case['rf'][1][:i] + case['rf'][1][i + 1:]]
+        if case['op'] == 'csv' and case['rf'] is not None and case['rf'][0] in ('arr', 'mem'):
+            d['rf'] = [case['rf'][0], case['rf'][1][:i] + case['rf'][1][i + 1:]]
         if case['op'] == 'pandas' and case['rf'] is not None:
             d['rf'] = case['rf'][:i] + case['rf'][i + 1:]
         yield d
@@ -1088,10 +1111,13 @@ def shrink(case):
 
 TECHNIQUE = ('Coq proof (statement-level model of the to_csv chunk loop, the csv line writer and to_pandas = list-level '
              'specification; reference CSV parser recovers what the writer wrote) + exhaustive small-scope differential '
-             'correspondence against the real to_csv / csv.reader / importer / to_pandas')
+             'correspondence against the real to_csv / csv.reader / importer / to_pandas; histories of calls on the same '
+             'objects are modelled as a state machine over the caller\'s list objects and the destination file')
 LEVEL_TEXT = ('Theorems in coq/Props/C18.v prove, for every frame, row filter, column filter and chunk_row_size >= 1, that the '
               'model of to_csv writes header :: selected rows, that the reference parser recovers every cell text from the '
               'written bytes, that the output does not depend on chunk_row_size and that the loop terminates within the '
-              'stated fuel; the model is tied to the real code by running both on the same generated cases.')
+              'stated fuel; for histories of exports (same dataframe object, same destination, the caller\'s list objects '
+              'reused, the frame edited in between) that every call is independent of the calls before it; the model is '
+              'tied to the real code by running both on the same generated cases.')
 LEVEL_NOTE = ('Trusted: Coq kernel, extraction, harness; str(float) literals are supplied by CPython; the importer used for the '
               're-import clause is exercised, not modelled (its model belongs to C05/C06).')
